@@ -332,7 +332,7 @@ type fPosting struct {
 	cost    *fAmt
 	costOp  string // "@" | "@@"
 	asrt    *fAmt
-	asrtOp  string // "=" | "=="
+	asrtOp  string  // "=" | "=="
 	comment *string // text after ';' (nil: no comment)
 	cws     string  // blanks before ';'
 	trail   string
